@@ -115,6 +115,17 @@ func runC16(c *caseWriter) (string, bool, map[string]int) {
 			emit(c, "balanced", v)
 		}
 	})
+	// deep nesting: balanced and mismatched brackets buried under 30..1000 levels (a bracket stack kept in a
+	// machine word, a counter per kind, a recursion limit show beyond their capacity)
+	for _, k := range []int{30, 31, 32, 33, 62, 63, 64, 65, 66, 100, 127, 128, 129, 200, 1000} {
+		op, cl := strings.Repeat("(", k), strings.Repeat(")", k)
+		nop, ncl := strings.Repeat(":not(", k), strings.Repeat(")", k)
+		for _, v := range []string{"a" + op + cl, "[b" + op + cl + ")", "[b" + nop + "a" + ncl + ")", "(b" + nop + "a" + ncl + "]", "[" + op + cl + "]", "(" + strings.Repeat("[", k) + strings.Repeat("]", k) + "]",
+			"a" + strings.Repeat("([", k/2) + strings.Repeat("])", k/2), "a" + strings.Repeat("([", k/2) + strings.Repeat(")]", k/2), "[b" + op + "]" + cl, "a" + op + cl[:k-1] + "]"} {
+			emit(c, "css_rule", v, "color:red;")
+			emit(c, "balanced", v)
+		}
+	}
 	// deeper over the characters that decide string / bracket structure
 	product([]string{"a", "\"", "(", ")", "\\"}, depth2, func(v string) { c16Selector(c, v, one) })
 	product([]string{"\"", "'", "\\", "\n", "\r", "\f", ")"}, depth, func(v string) { emit(c, "strip_strings", v); emit(c, "css_rule", "a("+v, "color:red;") })
